@@ -362,6 +362,13 @@ Proof. apply heq_lowest_eq. reflexivity. Qed.
 Theorem heq_sym a b : heq O a b = heq O b a.
 Proof. unfold heq. apply items_eqb_sym. Qed.
 
+Theorem heq_trans a b c : heq O a b = true -> heq O b c = true -> heq O a c = true.
+Proof. rewrite !heq_lowest_eq. intros -> ->. reflexivity. Qed.
+
+(* == is a congruence for the reduced form: equal histograms have identical lowest terms *)
+Theorem heq_same_lowest a b : heq O a b = true <-> lowest O a = lowest O b.
+Proof. exact (heq_lowest_eq a b). Qed.
+
 Theorem heq_lowest h : wf O h -> heq O (lowest O h) h = true.
 Proof. intros Hw. apply heq_lowest_eq. apply lowest_idem. exact Hw. Qed.
 
